@@ -4,7 +4,12 @@ which fire. Usage: tools/regress_seeded.py [--all-props]"""
 import glob, json, os, subprocess, sys
 VERIF = os.path.dirname(os.path.dirname(os.path.abspath(__file__)))
 missed = []
-for meta in sorted(glob.glob(os.path.join(VERIF, "seeded", "C*", "meta.json"))):
+metas = sorted(glob.glob(os.path.join(VERIF, "seeded", "C*", "meta.json")))
+# REGRESS_SHARD=i/n runs every n-th change starting at i (several scratch worktrees in parallel)
+if os.environ.get("REGRESS_SHARD"):
+    i, n = (int(x) for x in os.environ["REGRESS_SHARD"].split("/"))
+    metas = metas[i::n]
+for meta in metas:
     m = json.load(open(meta))
     d = os.path.dirname(meta)
     prop = m["breaks_property"]
